@@ -61,6 +61,13 @@ DOCS = [
     # several top-level elements (an html.parser fragment): which of them is "the root" must not depend on where the call was made
     ('html.parser', '<div id="ma"><p id="mb">a</p></div><div dir="rtl" id="mc"><p id="md">b</p><input type="radio" name="g" id="me"></div>'
      '<section id="mf"><p id="mg" lang="de">c</p><form><input type="submit" id="mh"></form></section>'),
+    # an XHTML document (xml parser) with a pragma language and an iframe, carrying its own lang, around a NON-XHTML inner document: what was
+    # found out about one element's namespace must not colour the next element
+    ('xml', '<html xmlns="http://www.w3.org/1999/xhtml"><head><meta http-equiv="content-language" content="en"/></head><body>'
+     '<iframe lang="de"><svg xmlns="http://www.w3.org/2000/svg"><text id="xt">t</text></svg></iframe><p id="xp1">a</p><p id="xp2">b</p></body></html>'),
+    # siblings that inherit their direction from the same parent, asked for BOTH directions in one query
+    ('html.parser', '<div dir="rtl" id="da"><span id="db">a</span><p id="dc">b</p><span id="dd">c</span><p id="de">d</p></div>'
+     '<div id="df"><span id="dg">e</span><p id="dh">f</p><bdi id="di">g</bdi></div>'),
 ]
 # edits made through the bs4 API after parsing (to the working tree and to the pristine copy alike): attribute values of the shapes the API
 # permits (lists holding non-strings, bytes, numbers) on attributes that attribute / class selectors read.  Reading them must not rewrite them.
@@ -105,7 +112,7 @@ SELS = [':lang("")', ':lang(en)', ':lang("*")', ':default', ':indeterminate', ':
         ':has(> :default)', ':nth-child(2 of :lang(en))', ':scope > *', ':lang(de, fr)', 'input:not(:indeterminate)',
         ':-soup-contains(x)', ':enabled', 'x|item:not(:checked)', 'x|item, :checked', ':is(x|item):not(:disabled)', 'x|*', 'p:lang(en)']
 # the order matters for the reduced BFS pools (prefixes of these lists): most history-sensitive first
-SELS += [':scope + tr td', 'form:has(:default)', '[data-n~="4"]', '.a', '[data-n]:not([data-n="7"])']
+SELS += [':scope + tr td', 'form:has(:default)', 'span:dir(rtl), p:dir(ltr)', 'p:dir(rtl), span:dir(ltr)', ':lang(en), :lang(de)', '[data-n~="4"]', '.a', '[data-n]:not([data-n="7"])']
 SELS = [SELS[i] for i in (1, 20, 3, 4, 0, 24, 16, 21)] + [x for i, x in enumerate(SELS) if i not in (1, 20, 3, 4, 0, 24, 16, 21)]
 USES_SCOPE = {':scope > *', ':scope + tr td'}
 KINDS = ['select', 'match', 'filter', 'closest', 'select_one', 'iselect1', 'filter_iter']
